@@ -355,15 +355,18 @@ func (c *Check) earnRules(prefix string) {
 		if !pa.AllFacts().Has(negf.Not()) {
 			add("remainder", "the remainder fee−tax is used without excluding a negative result, or the subtracted tax differs from the tax sent", pa)
 		}
-		// skeleton on the one-iteration path
-		if b, ok := T.Match("(sdk.Coins.Add $Z (sdk.NewCoin (.Coin.Denom (elem " + feeP + ")) $X))"); ok {
-			if isTruncMul(b["$X"], "(.Coin.Amount (elem "+feeP+"))", tax) {
-				sawSkeleton = true
-			} else {
-				add("tax-skeleton", "per-coin tax is "+shortTerm(b["$X"])+" — not TruncateInt(Dec(amount) × ServiceFeeTax)", pa)
+		// skeleton on the one-iteration path (through a value-returning helper if the computation was extracted)
+		for _, tv := range c.retVariants(T) {
+			tv = elemNorm(tv)
+			if b, ok := tv.Match("(sdk.Coins.Add $Z (sdk.NewCoin (.Coin.Denom (elem " + feeP + ")) $X))"); ok {
+				if isTruncMul(b["$X"], "(.Coin.Amount (elem "+feeP+"))", tax) {
+					sawSkeleton = true
+				} else {
+					add("tax-skeleton", "per-coin tax is "+shortTerm(b["$X"])+" — not TruncateInt(Dec(amount) × ServiceFeeTax)", pa)
+				}
+			} else if !(tv.Op == "lit") {
+				add("tax-skeleton", "tax term "+shortTerm(tv)+" is not accumulated per coin of the fee", pa)
 			}
-		} else if !(T.Op == "lit") {
-			add("tax-skeleton", "tax term "+shortTerm(T)+" is not accumulated per coin of the fee", pa)
 		}
 		// both records grow by the same remainder
 		for _, e := range set18 {
@@ -660,3 +663,44 @@ func (c *Check) directEffectsDepth(f *Func, depth int) []*Eff {
 }
 
 var _ = ast.Inspect
+
+// retVariants: if t is a call of a value-returning module function, the result terms of its committed
+// paths instantiated on the call's arguments (one level); otherwise t itself.
+func (c *Check) retVariants(t *Term) []*Term {
+	g := c.P.FuncNamed(t.Op)
+	if g == nil || !g.isHandWritten() || g.Body == nil || len(g.Res) != 1 {
+		return []*Term{t}
+	}
+	m := argMap(g, t)
+	var out []*Term
+	seen := map[string]bool{}
+	for _, pa := range c.P.PathsOf(g) {
+		if !pa.OK() || len(pa.Ret) != 1 {
+			continue
+		}
+		r := pa.Ret[0].Subst(m)
+		if !seen[r.String()] {
+			seen[r.String()] = true
+			out = append(out, r)
+		}
+	}
+	if len(out) == 0 {
+		return []*Term{t}
+	}
+	return out
+}
+
+// elemNorm rewrites x[i] on a slice into (elem x): "some element of x" (index loops vs range loops).
+func elemNorm(t *Term) *Term {
+	if t == nil || t.Op == "" {
+		return t
+	}
+	if t.Op == "idx" && len(t.A) == 2 {
+		return mk("elem", elemNorm(t.A[0])).withType(t.Typ)
+	}
+	na := make([]*Term, len(t.A))
+	for i, a := range t.A {
+		na[i] = elemNorm(a)
+	}
+	return &Term{Op: t.Op, A: na, Typ: t.Typ, Obj: t.Obj, Pos: t.Pos}
+}
